@@ -61,7 +61,7 @@ fn check_tags_chunk(data: &[u8]) -> bool {
             want = Some(n as usize);
         }
     }
-    match (got, want) {
+    match (&got, want) {
         (Ok(tags), Some(n)) => {
             assert!(tags.len() == n, "one tag per declared entry");
             let mut k = 0;
@@ -80,24 +80,29 @@ fn check_tags_chunk(data: &[u8]) -> bool {
         (Ok(_), None) => assert!(false, "decoder accepted a tags chunk the format rejects"),
         (Err(_), Some(_)) => assert!(false, "decoder rejected a well-formed tags chunk"),
     }
+    core::mem::forget(got); // dropping io::Error (bit-packed pointer repr) is very expensive for CBMC
     decoded_ok
 }
 
 macro_rules! tags_shape {
-    ($hname:ident, $n:expr, $u:expr, $can_ok:expr) => {
+    ($hname:ident, $n:expr, $u:expr, $can_ok:expr, [$([$(($off:expr, $val:expr)),*]),*]) => {
         crate::verif_harness! {
-            /// tags::parse_chunk on every payload of exactly $n bytes. BOUNDED in payload size.
+            /// tags::parse_chunk on every payload of exactly $n bytes: one tag per declared entry with its attributes in file order.
+            /// Length fields of strings are pinned to the listed concrete values (one decoder run per pin set); every other byte is symbolic.
             #[kani::stub(std::fmt::format, crate::verif_spec::stubs::format_stub)]
             #[kani::unwind($u)]
             fn $hname(s) {
-                let d: [u8; $n] = s.bytes();
-                let ok = check_tags_chunk(&d);
-                crate::vcover!(ok || !$can_ok, "a well-formed payload of this size decodes");
-                crate::vcover!(!ok, "a malformed payload of this size is rejected");
+                let mut d: [u8; $n] = s.bytes();
+                $(
+                    $( crate::verif_spec::pin16(&mut d, $off, $val); )*
+                    let ok = check_tags_chunk(&d);
+                    crate::vcover!(ok || !$can_ok, "a well-formed payload decodes");
+                    crate::vcover!(!ok, "a malformed payload is rejected");
+                )*
             }
         }
     };
 }
-tags_shape!(k_tags_chunk_10, 10, 3, true); // zero tags
-tags_shape!(k_tags_chunk_30, 30, 4, true); // one tag with a 1-byte name, or one with empty name + slack
-tags_shape!(k_tags_chunk_49, 49, 23, true); // two tags (19 + 20 bytes) or one with a longer name
+tags_shape!(k_tags_chunk_10, 10, 3, true, [[]]); // zero tags
+tags_shape!(k_tags_chunk_30, 30, 4, true, [[(27, 1)], [(27, 0)], [(27, 2)]]); // one tag
+tags_shape!(k_tags_chunk_49, 49, 4, true, [[(27, 0), (46, 1)], [(27, 1), (47, 0)]]); // two tags
